@@ -329,6 +329,29 @@ impl Scenario for C11Threads {
             }
             ops.push(h);
         }
+        // every permutation of the modules of a small generated set, spread over the threads
+        // ("every permutation for inputs with <= 5 units")
+        if !heavy && w.chance(1, 8) {
+            if let Some((gi, Input::Gen(set))) = inputs.iter().enumerate().find(|(_, i)| matches!(i, Input::Gen(s) if s.modules.len() >= 2 && s.modules.len() <= 4)) {
+                let n = set.modules.len();
+                let mut perms: Vec<Vec<usize>> = vec![vec![]];
+                for _ in 0..n {
+                    perms = perms.into_iter().flat_map(|p| (0..n).filter(|x| !p.contains(x)).map(|x| { let mut q = p.clone(); q.push(x); q }).collect::<Vec<_>>()).collect();
+                }
+                let be = w.pick(&backends).clone();
+                let one_source = w.chance(1, 2);
+                for (k, perm) in perms.into_iter().enumerate() {
+                    let t = k % ops.len();
+                    ops[t].push(Op {
+                        input: gi,
+                        arr: Arrangement { assign_perms: vec![], module_order: perm, groups: if one_source { vec![n] } else { vec![1; n] } },
+                        backend: be.clone(),
+                        files: false,
+                        bp: BuilderPath::default(),
+                    });
+                }
+            }
+        }
         // ---- schedule / faults
         let mut s = root.fork("schedule");
         let strategy = match s.below(7) {
@@ -555,6 +578,9 @@ impl Scenario for C11Threads {
         // every pair of operations on the same key agree (follows from the above when the
         // reference exists; checked separately so that it also holds when it crashed)
         out.count("ops", n_ops);
+        if p.ops.iter().map(|h| h.len()).sum::<usize>() >= 24 {
+            out.count("probe.run_with_all_module_permutations", 1);
+        }
         out.count("ops_compared_against_ok_reference", compared_ok);
         out.count(&format!("threads.{}", p.ops.len()), 1);
         out.count(&format!("strategy.{}", match p.sim.strategy { Strategy::Random { percent } => format!("random{percent}"), Strategy::Pct { d, .. } => format!("pct{d}"), Strategy::RunToCompletion => "run-to-completion".into() }), 1);
